@@ -22,6 +22,22 @@ CLAIMED = {
              'the time-summed output is the sum over time of the full output. Correspondence + triple-loop oracle on integer data for '
              'all three squash_time settings.',
         note=NOTE),
+    'C17': dict(
+        technique='Coq proof (loop invariant over the column-by-column greedy assignment, for every query table) + differential correspondence on injected and real K-NN tables',
+        text='Theorems (Prop_C17.v) prove for EVERY neighbour table (D, inds), K and ny that the returned pair list has no x row and no '
+             'y row twice, all indices in range, every matched y among the K candidates of its x, and within the bound under the '
+             'query contract. The cKDTree query is an oracle. Correspondence replays injected tables through the real loop and '
+             'rank-codes the tables the real cKDTree returns for random/tied arrays; oracle checks injectivity, range, K-NN '
+             'membership and bound on the implementation output.',
+        note=NOTE),
+    'C20': dict(
+        technique='Coq proof over a state-machine model of the logger and wrap_verbose (induction over histories) + exhaustive differential correspondence of histories in forked processes',
+        text='Theorems (Prop_C20.v) prove that a decorated call restores the entire logger state whether it returns or raises, in every '
+             'state including never-set-up, that the caller sees the function\'s own outcome independent of logger state and override, '
+             'and by induction over histories that calls never influence the logger state. Correspondence: every history up to depth '
+             '3 (quick) / 4 (thorough) over a 23-op alphabet, each in a freshly forked never-set-up process, get_level() and outcome '
+             'after each step, results compared byte-for-byte to a reference.',
+        note=NOTE),
     'C12': dict(
         technique='Coq proof over a Gallina model of get_cycle_vector + exhaustive differential correspondence (all phase sequences up to length 6/8 over a 5-value alphabet)',
         text='Theorems (Prop_C12.v, closed under the global context) prove for every phase list, threshold set, mask and mode that '
